@@ -11,6 +11,7 @@ pub mod c07;
 pub mod c08;
 pub mod c09a;
 pub mod c09b;
+pub mod c12;
 pub mod c14;
 pub mod c15;
 pub mod c15b;
@@ -45,6 +46,7 @@ pub fn run(ctx: &Ctx) -> Option<Report> {
         }
         "C10" => Some(brackets::run(ctx, true)),
         "C11" => Some(brackets::run(ctx, false)),
+        "C12" => Some(c12::run(ctx)),
         "C14" => {
             let mut r = c14::run(ctx);
             // evaluations = executed matrix cells (the module counts worlds there)
@@ -104,6 +106,7 @@ pub fn replay(ctx: &Ctx, case: &Value) -> Option<Report> {
         }
         "C10" => Some(brackets::replay(ctx, case, true)),
         "C11" => Some(brackets::replay(ctx, case, false)),
+        "C12" => Some(c12::replay(ctx, case)),
         "C14" => Some(c14::replay(ctx, case)),
         "C15" => {
             if case.get("half").and_then(|h| h.as_str()) == Some("c15b") {
